@@ -30,6 +30,18 @@ CHECKS = {
         note='Trusts the fake ASGI server/monitor as a reading of ASGI WebSocket spec 2.0-2.4 and the harness model of the '
              'documented errors; when several error conditions hold at once any documented error is accepted; after an '
              'injected send failure only the monitor and send-after-lost oracles remain in force.'),
+    'C19': dict(
+        level='exploration', ref='DESIGN.md section 4 (C19)',
+        technique=TECH + 'baton-passing real threads pre-empted at source-line granularity (sys.settrace) with a '
+                  'simulator-owned router lock, and ASGI tasks interleaved at every receive/send/pause on a custom '
+                  'asyncio loop; each concurrent response compared with its solo run',
+        text='Seeded schedule exploration: 2-3 requests race through one generated WSGI app as real threads of which '
+             'exactly one runs at a time (<=4 seeded pre-emptions at line granularity inside falcon and the generated '
+             'finder; cold / pre-compiled / warmed router; the compile lock is a SimLock so contention and deadlock are '
+             'observed), or interleave as tasks through one ASGI app at every receive, send and pause. Every response '
+             'and responder-side observation must equal the solo run on a fresh identical app.',
+        note='Pre-emption granularity is a source line of pure-Python falcon; races inside one bytecode line or inside '
+             'C code (lru_cache, dict ops) are not explored. Generated apps are order-independent by construction.'),
 }
 
 NOT_YET = {p: 'claimed in DESIGN.md; check under construction in this round (not yet registered)' for p in
